@@ -142,7 +142,7 @@ vharness!(c27_q_vec_same_type, 7, {
 });
 
 // different types of identical layout (in-place path)
-vharness!(c27_q_vec_same_layout, 7, {
+vharness!(c27_t_vec_same_layout, 7, {
     reset();
     let n = sym::usize();
     sym::assume(n <= MAXN);
